@@ -70,8 +70,21 @@ Definition sFaultAt (k p : Z) : option fault_at :=
        | _ => None
        end.
 
+(* cases 0, 1, 5 are the text of CommitApiDriver.driver_entry (calling it would extract two
+   functions of that name and ocaml/main.ml links the first) *)
 Definition driver_entry (s : sexp) : sexp :=
   match s with
+  | L [A 0; lz; A t0; tr] =>
+      match sBool lz, sList sTimed tr with
+      | Some lz, Some tr =>
+          let '(states, fin_) := run_states lz (init [] t0) tr in
+          L [L (map state_summary states); L (map A (committed fin_)); L (map A (pending fin_))]
+      | _, _ => bad_case
+      end
+  | L [A 1; o] =>
+      match sOp o with Some o => L (map micro_s (expand o)) | None => bad_case end
+  | L [A 5; a] =>
+      match sApi a with Some a => L (map micro_s (api_expand a)) | None => bad_case end
   | L [A 6; lz; A t0; tr] =>
       match sBool lz, sList sFin tr with
       | Some lz, Some tr =>
@@ -88,5 +101,5 @@ Definition driver_entry (s : sexp) : sexp :=
           end
       | _, _ => bad_case
       end
-  | _ => CommitApiDriver.driver_entry s
+  | _ => bad_case
   end.
